@@ -303,6 +303,49 @@ func init() {
 					if !fromDir {
 						fromDir = p.derivedFrom(site.Common().Args[1], cur, 6)
 					}
+					if !fromDir {
+						// the candidates are collected first and probed in a loop: an element of a list that
+						// append built from paths joined with the current file's directory
+						var reaches func(v ssa.Value, depth int, seen map[ssa.Value]bool) bool
+						reaches = func(v ssa.Value, depth int, seen map[ssa.Value]bool) bool {
+							if v == nil || seen[v] || depth > 8 {
+								return false
+							}
+							seen[v] = true
+							for _, o := range p.origins(v, OriginOpts{ThroughCall: func(cl *ssa.Call) []ssa.Value {
+								n := calleeName(&cl.Call)
+								if n == "path/filepath.Join" || n == "path.Join" || n == "path/filepath.Dir" || n == "path.Dir" {
+									return cl.Call.Args
+								}
+								if bi, ok := cl.Call.Value.(*ssa.Builtin); ok && bi.Name() == "append" {
+									return cl.Call.Args
+								}
+								return nil
+							}}) {
+								if o == ssa.Value(cur) || p.derivedFrom(o, cur, 4) {
+									return true
+								}
+								if ld, ok := o.(*ssa.UnOp); ok && ld.Op == token.MUL {
+									if ia, ok := ld.X.(*ssa.IndexAddr); ok && reaches(ia.X, depth+1, seen) {
+										return true
+									}
+								}
+								if al, ok := o.(*ssa.Alloc); ok && al.Referrers() != nil {
+									for _, r := range *al.Referrers() {
+										if ia, ok := r.(*ssa.IndexAddr); ok && ia.Referrers() != nil {
+											for _, u := range *ia.Referrers() {
+												if st, ok := u.(*ssa.Store); ok && reaches(st.Val, depth+1, seen) {
+													return true
+												}
+											}
+										}
+									}
+								}
+							}
+							return false
+						}
+						fromDir = reaches(site.Common().Args[1], 0, map[ssa.Value]bool{})
+					}
 					c.check(fromDir, fmt.Sprintf("resolveLayoutPath: Stat#%d probes relative to the current file", stats), p.instrPos(site), "path derived from the current file's directory", "the probed path does not depend on the current file's directory")
 				}
 			}
@@ -492,7 +535,7 @@ func init() {
 	})
 
 	register(&Rule{
-		ID: "C08.R1", Props: []string{"C08"}, Min: 8,
+		ID: "C08.R1", Props: []string{"C08", "C07"}, Min: 8, // C07: the layout key and the data carried along the chain are read from the filled stack
 		Doc: "merge order in each place that builds a scope from several sources: the writes into the target map happen lowest precedence first — Fill: auto-loaded config, then the passed data, then the loaded front-matter; loadConfig: theme.yml before the data/ directory; Load: copy of the parent, then front-matter; Vue.Render/RenderFragment/RenderNodes: passed data, then front-matter",
 		Run: func(p *Prog, c *Ctx) {
 			type src struct {
